@@ -243,12 +243,16 @@ func accept(w *cworld.World, header string, spn string, now time.Time) error {
 	if d := now.Sub(at); d > 5*time.Minute || -d > 5*time.Minute {
 		return errors.New("authenticator outside the clock skew")
 	}
+	lastAuthID = fmt.Sprintf("%v@%s %d.%06d", auth.CName.Names, auth.CRealm, auth.CTime.Unix(), auth.Cusec)
 	// RFC 4121 4.1.1: checksum type 0x8003, at least 24 bytes, Lgth = 16
 	if auth.Cksum == nil || auth.Cksum.Type != 0x8003 || len(auth.Cksum.Sum) < 24 || auth.Cksum.Sum[0] != 16 || auth.Cksum.Sum[1] != 0 || auth.Cksum.Sum[2] != 0 || auth.Cksum.Sum[3] != 0 {
 		return errors.New("authenticator lacks the RFC 4121 0x8003 checksum")
 	}
 	return nil
 }
+
+// lastAuthID: (client, ctime, cusec) of the authenticator accept() looked at last - what an RFC 4120 replay cache keys on.
+var lastAuthID string
 
 func trimDER(b []byte) []byte {
 	if n, _, err := der.ParsePrefix(b); err == nil {
@@ -273,6 +277,20 @@ type runCfg struct {
 	SPN     string `json:"spn"` // "" = derived from the URL
 	Etype   int32  `json:"etype"`
 	CNAME   string `json:"cname"`
+	// URLHost: how the start URL names the host ("" = host.test.gokrb5): with a port, as an absolute name (trailing
+	// dot), both. The service principal derived from it is HTTP/host.test.gokrb5 in every case.
+	URLHost string `json:"url_host,omitempty"`
+	// CNAMEFails: the resolver has no canonical name to offer (lookup error); the name in the URL is used
+	CNAMEFails bool `json:"cname_lookup_fails,omitempty"`
+}
+
+// hostOfURL: the host name a URL-derived service principal is made of (no port, no trailing dot).
+func hostOfURL(u string) string {
+	h := strings.Split(strings.TrimPrefix(u, "http://"), "/")[0]
+	if i := strings.LastIndex(h, ":"); i >= 0 {
+		h = h[:i]
+	}
+	return strings.ToLower(strings.TrimSuffix(h, "."))
 }
 
 func (rc runCfg) script() string {
@@ -286,17 +304,24 @@ func (rc runCfg) script() string {
 // runOne executes one configuration and judges it; returns violation key and detail.
 func runOne(rc runCfg) (string, map[string]interface{}, string) {
 	vclock.Virtual(cworld.T0)
+	vclock.AutoTick = time.Microsecond // two readings of the clock are never equal, as on a real machine
 	o := cworld.DefaultOpts()
 	o.ETypes = []int32{rc.Etype}
 	w := cworld.New(o)
 	if rc.CNAME != "" {
 		vnet.SetCNAME("www.test.gokrb5", rc.CNAME)
 	}
+	if rc.CNAMEFails {
+		vnet.CNAMEErr = errors.New("lookup: no such host")
+	}
 	sc := &scripted{word: rc.Word, tail: rc.Tail, consume: rc.Consume}
 	hc := spnego.NewClient(w.Client, &http.Client{Transport: sc}, rc.SPN)
 	url := "http://host.test.gokrb5/start"
 	if rc.CNAME != "" {
 		url = "http://www.test.gokrb5/start"
+	}
+	if rc.URLHost != "" {
+		url = "http://" + rc.URLHost + "/start"
 	}
 	body := make([]byte, rc.BodyLen)
 	for i := range body {
@@ -359,7 +384,7 @@ func runOne(rc runCfg) (string, map[string]interface{}, string) {
 		}
 		spn := rc.SPN
 		if spn == "" {
-			host := strings.Split(strings.TrimPrefix(a.URL, "http://"), "/")[0]
+			host := hostOfURL(a.URL)
 			if rc.CNAME != "" && host == "www.test.gokrb5" {
 				host = strings.ToLower(strings.TrimSuffix(rc.CNAME, "."))
 			}
@@ -392,6 +417,7 @@ func runOne(rc runCfg) (string, map[string]interface{}, string) {
 	// acceptor of the host it goes to accepts, and never the token of an earlier request again (an acceptor
 	// with a replay cache refuses a repeated authenticator)
 	seenTok := map[string]int{}
+	seenAuth := map[string]int{}
 	for j, rq := range sc.reqs {
 		if rq.Auth == "" {
 			continue
@@ -403,7 +429,7 @@ func runOne(rc runCfg) (string, map[string]interface{}, string) {
 		seenTok[rq.Auth] = j
 		spn := rc.SPN
 		if spn == "" {
-			host := strings.Split(strings.TrimPrefix(rq.URL, "http://"), "/")[0]
+			host := hostOfURL(rq.URL)
 			if rc.CNAME != "" && host == "www.test.gokrb5" {
 				host = strings.ToLower(strings.TrimSuffix(rc.CNAME, "."))
 			}
@@ -413,6 +439,13 @@ func runOne(rc runCfg) (string, map[string]interface{}, string) {
 			detail["step"], detail["acceptor"] = j, err.Error()
 			return "token-not-acceptable-at-its-destination:" + spnKind(rc), detail, ""
 		}
+		// two tokens of one call never carry the same (client, ctime, cusec): an acceptor's replay cache would refuse
+		// the second (the clock moves by a microsecond per reading, so the library has distinct instants to draw on)
+		if k, dup := seenAuth[spn+" "+lastAuthID]; dup {
+			detail["step"], detail["same_as_request"], detail["authenticator"] = j, k, lastAuthID
+			return "authenticator-time-of-an-earlier-request-used-again", detail, ""
+		}
+		seenAuth[spn+" "+lastAuthID] = j
 	}
 	// an unanswered challenge at the end must end in an error or the 401 itself, never in silence
 	return "", detail, fmt.Sprintf("%d/%s", len(sc.reqs), outcome)
@@ -496,6 +529,20 @@ func matrix() []runCfg {
 				}
 			}
 		}
+	}
+	// spellings of the host in the URL when the service principal is derived from it
+	for _, uh := range []string{"host.test.gokrb5:8080", "host.test.gokrb5.", "host.test.gokrb5.:8080", "HOST.Test.gokrb5", "host.test.gokrb5:80"} {
+		for _, w := range [][]int{{r401Neg}, {r401Neg, r401Neg}, {r302Same, r401Neg}} {
+			out = append(out, runCfg{Word: w, Tail: r200, Method: "GET", Consume: "all", SPN: "", Etype: 18, URLHost: uh})
+			if uh == strings.ToLower(uh) {
+				// (which case the principal takes when the URL's host is not lower case and no canonical name is to be had
+				// is not the property's business)
+				out = append(out, runCfg{Word: w, Tail: r200, Method: "GET", Consume: "all", SPN: "", Etype: 18, URLHost: uh, CNAMEFails: true})
+			}
+		}
+	}
+	for _, w := range [][]int{{r401Neg}, {r302Same, r401Neg}} {
+		out = append(out, runCfg{Word: w, Tail: r200, Method: "GET", Consume: "all", SPN: "", Etype: 18, CNAMEFails: true})
 	}
 	return out
 }
